@@ -547,25 +547,75 @@ Qed.
 Lemma complete_now : forall s a, now (complete s a) = now s /\ nacts (complete s a) = nacts s.
 Proof. intros s a. unfold complete. cbn [now nacts]. match goal with |- now (fold_left _ ?l ?s0) = _ /\ _ => destruct (release_now a l s0) as [R1 R2] end. rewrite R1, R2. split; reflexivity. Qed.
 
+Lemma complete_keeps_started : forall s a b, inv s -> a_state (acts s a) = STARTED -> b <> a ->
+  a_state (acts s b) = STARTED -> a_state (acts (complete s a) b) = STARTED.
+Proof.
+  intros s a b I Ha Hne Hb.
+  assert (Hda : a_deps (acts s a) = []) by (apply (i_sd s I); unfold startable; rewrite Ha; reflexivity).
+  assert (Hself : ~ In a (a_succs (acts s a))) by (intros H; apply (i_E2 s I) in H; rewrite Hda in H; contradiction).
+  destruct (complete_facts s a (i_nd s I a) Hself) as [_ [_ [_ [_ C5]]]].
+  rewrite C5; [exact Hb|exact Hne|].
+  intros Hin. apply (i_E2 s I) in Hin. rewrite (i_sd s I b) in Hin; [contradiction|]. unfold startable; rewrite Hb; reflexivity.
+Qed.
+
+Lemma batch_fold_inv : forall l s, inv s -> NoDup l -> (forall a, In a l -> a_state (acts s a) = STARTED) ->
+  inv (fold_left complete l s) /\ now (fold_left complete l s) = now s /\ nacts (fold_left complete l s) = nacts s.
+Proof.
+  induction l as [|a r IH]; intros s I Hnd Hst; cbn [fold_left]; [auto|].
+  inv Hnd. assert (Ha : a_state (acts s a) = STARTED) by (apply Hst; left; reflexivity).
+  destruct (complete_now s a) as [C1 C2].
+  destruct (IH (complete s a)) as [J1 [J2 J3]].
+  - apply complete_inv; assumption.
+  - exact H2.
+  - intros b Hb. apply complete_keeps_started; auto; [intros ->; contradiction|apply Hst; right; exact Hb].
+  - split; [exact J1|split; congruence].
+Qed.
+
+Lemma due_list : forall s t, let l := filter (fun i => due t (acts s i)) (seq 0 (nacts s)) in
+  NoDup l /\ forall a, In a l -> a_state (acts s a) = STARTED.
+Proof.
+  intros s t l. split; [apply NoDup_filter; apply seq_NoDup|].
+  intros a Ha. apply filter_In in Ha. destruct Ha as [_ Hd]. unfold due in Hd.
+  destruct (fin_date (acts s a)) eqn:E; [|discriminate]. eapply fin_date_started; eauto.
+Qed.
+
+Lemma batch_inv : forall s t, inv s -> inv (batch s t) /\ now (batch s t) = Z.max (now s) t /\ nacts (batch s t) = nacts s.
+Proof.
+  intros s t I. unfold batch. destruct (due_list s t) as [D1 D2].
+  assert (I1 : inv (set_now s (Z.max (now s) t))) by (apply set_now_inv; [exact I|lia]).
+  destruct (batch_fold_inv _ (set_now s (Z.max (now s) t)) I1 D1 D2) as [J1 [J2 J3]].
+  split; [exact J1|]. split; [exact J2|exact J3].
+Qed.
+
 Lemma drain_le : forall fuel t s, now s <= t -> now (drain fuel (Some t) s) <= t.
 Proof.
   induction fuel as [|f IH]; intros t s Hs; cbn [drain]; [exact Hs|].
   destruct (next_ev (acts s) (seq 0 (nacts s))) as [[a d]|]; [|exact Hs].
-  destruct (within (Some t) d) eqn:Ew; [|exact Hs]. cbn in Ew. apply IH.
-  destruct (complete_now (set_now s (Z.max (now s) d)) a) as [C _]. rewrite C. cbn. lia.
+  destruct (d <? t) eqn:E1.
+  - apply IH. destruct (complete_now (set_now s (Z.max (now s) d)) a) as [C _]. rewrite C. cbn. lia.
+  - destruct (d =? t); [|exact Hs]. unfold batch.
+    match goal with |- now (fold_left complete ?l ?s0) <= _ => assert (E : now (fold_left complete l s0) = now s0) end.
+    { generalize (set_now s (Z.max (now s) t)). generalize (filter (fun i => due t (acts s i)) (seq 0 (nacts s))).
+      induction l as [|x r IHl]; intros s0; cbn [fold_left]; [reflexivity|]. rewrite IHl. apply complete_now. }
+    rewrite E. cbn. lia.
 Qed.
 
 Lemma drain_inv : forall fuel lim s, inv s -> inv (drain fuel lim s) /\ now s <= now (drain fuel lim s) /\ nacts (drain fuel lim s) = nacts s.
 Proof.
   induction fuel as [|f IH]; intros lim s I; cbn [drain]; [split; [exact I|split; [lia|reflexivity]]|].
   destruct (next_ev (acts s) (seq 0 (nacts s))) as [[a d]|] eqn:En; [|split; [exact I|split; [lia|reflexivity]]].
-  destruct (within lim d); [|split; [exact I|split; [lia|reflexivity]]].
   destruct (next_ev_spec _ _ _ _ En) as [_ Hf]. apply fin_date_started in Hf.
   assert (I1 : inv (set_now s (Z.max (now s) d))) by (apply set_now_inv; [exact I|lia]).
   assert (I2 : inv (complete (set_now s (Z.max (now s) d)) a)) by (apply complete_inv; [exact I1|exact Hf]).
-  destruct (IH lim _ I2) as [J1 [J2 J3]]. split; [exact J1|].
-  destruct (complete_now (set_now s (Z.max (now s) d)) a) as [C1 C2].
-  cbn [set_now now nacts] in C1, C2. split; [lia|congruence].
+  destruct (complete_now (set_now s (Z.max (now s) d)) a) as [C1 C2]. cbn [set_now now nacts] in C1, C2.
+  assert (Step : inv (drain f lim (complete (set_now s (Z.max (now s) d)) a)) /\
+                 now s <= now (drain f lim (complete (set_now s (Z.max (now s) d)) a)) /\
+                 nacts (drain f lim (complete (set_now s (Z.max (now s) d)) a)) = nacts s).
+  { destruct (IH lim _ I2) as [J1 [J2 J3]]. split; [exact J1|]. split; [lia|congruence]. }
+  destruct lim as [t|]; [|exact Step].
+  destruct (d <? t); [exact Step|].
+  destruct (d =? t); [|split; [exact I|split; [lia|reflexivity]]].
+  destruct (batch_inv s t I) as [B1 [B2 B3]]. split; [exact B1|]. split; [lia|exact B3].
 Qed.
 
 Lemma step_inv : forall s o s', inv s -> step s o = Ok s' -> inv s' /\ now s <= now s'.
@@ -651,3 +701,460 @@ Proof.
   destruct (run_from_inv ops init_st s k inv_init E) as [I _]. exact (i_guard s I b Hb).
 Qed.
 
+
+(** * 5. Start dates: an activity starts at the date of the event that made it ready *)
+Definition trigger_ok (s : st) (b : nat) (ts : Z) : Prop :=
+  0 <= ts /\ started_or_done (acts s b) /\
+  (forall t, a_tassign (acts s b) = Some t -> t <= ts) /\ (forall t, a_treq (acts s b) = Some t -> t <= ts) /\
+  (a_tassign (acts s b) = Some ts \/ a_treq (acts s b) = Some ts \/
+   exists p, In p (a_gpreds (acts s b)) /\ a_tfinish (acts s p) = Some ts).
+
+Record kinv (s : st) : Prop := {
+  k_now : 0 <= now s;
+  k_dates : forall b t, a_tassign (acts s b) = Some t \/ a_treq (acts s b) = Some t -> t <= now s;
+  k_dg : forall a b, In a (a_deps (acts s b)) -> In a (a_gpreds (acts s b));
+  k_start : forall b ts, a_tstart (acts s b) = Some ts -> trigger_ok s b ts;
+  k_tf : forall p t, a_tfinish (acts s p) = Some t -> a_state (acts s p) = FINISHED }.
+
+Lemma kinv_init : kinv init_st.
+Proof. constructor; cbn; intros; try lia; try contradiction; try discriminate. destruct H; discriminate. Qed.
+
+Lemma startable_not_sod : forall x, startable x = true -> ~ started_or_done x.
+Proof. intros x H S. apply sod_not_startable in S. congruence. Qed.
+
+Lemma k_upd : forall s s' b x',
+  kinv s -> (forall i, acts s' i = upd (acts s) b x' i) -> now s' = now s ->
+  startable (acts s b) = true ->
+  a_gpreds x' = a_gpreds (acts s b) -> a_deps x' = a_deps (acts s b) -> a_tfinish x' = a_tfinish (acts s b) ->
+  (forall t, a_tassign x' = Some t -> a_tassign (acts s b) = Some t \/ t = now s) ->
+  (forall t, a_treq x' = Some t -> a_treq (acts s b) = Some t \/ t = now s) ->
+  (a_tstart x' = a_tstart (acts s b) \/
+   (a_state x' = STARTED /\ a_tstart x' = Some (now s) /\ (a_tassign x' = Some (now s) \/ a_treq x' = Some (now s)))) ->
+  kinv s'.
+Proof.
+  intros s s' b x' K Ha Hnow Hst Hgp Hdp Htf Hta Htr Hx.
+  assert (Hnone : a_tstart (acts s b) = None).
+  { destruct (a_tstart (acts s b)) as [ts|] eqn:E; [|reflexivity]. destruct (k_start s K b ts E) as [_ [S _]].
+    exfalso. eapply startable_not_sod; eauto. }
+  assert (Htfn : forall t, a_tfinish (acts s b) <> Some t).
+  { intros t E. apply (k_tf s K) in E. apply startable_states in Hst. destruct Hst; congruence. }
+  assert (Htf' : forall p, a_tfinish (acts s' p) = a_tfinish (acts s p)).
+  { intros p. rewrite Ha. destruct (Nat.eq_dec p b) as [->|Hne]; [rewrite upd_eq; exact Htf|rewrite upd_neq by exact Hne; reflexivity]. }
+  assert (Hgp' : forall p, a_gpreds (acts s' p) = a_gpreds (acts s p)).
+  { intros p. rewrite Ha. destruct (Nat.eq_dec p b) as [->|Hne]; [rewrite upd_eq; exact Hgp|rewrite upd_neq by exact Hne; reflexivity]. }
+  pose proof (k_now s K) as H0.
+  constructor.
+  - rewrite Hnow. exact H0.
+  - intros b0 t H. rewrite Hnow. rewrite Ha in H. destruct (Nat.eq_dec b0 b) as [->|Hne].
+    + rewrite upd_eq in H. destruct H as [H|H]; [destruct (Hta t H) as [H1|H1]|destruct (Htr t H) as [H1|H1]]; try lia;
+        apply (k_dates s K b); auto.
+    + rewrite upd_neq in H by exact Hne. apply (k_dates s K b0); exact H.
+  - intros a b0 H. rewrite Hgp'. rewrite Ha in H. destruct (Nat.eq_dec b0 b) as [->|Hne].
+    + rewrite upd_eq, Hdp in H. apply (k_dg s K); exact H.
+    + rewrite upd_neq in H by exact Hne. apply (k_dg s K); exact H.
+  - intros b0 ts H. unfold trigger_ok. rewrite Hgp'. rewrite Ha in H |- *. destruct (Nat.eq_dec b0 b) as [->|Hne].
+    + rewrite upd_eq in H |- *. destruct Hx as [Hx|[X1 [X2 X3]]]; [rewrite Hx, Hnone in H; discriminate|].
+      rewrite X2 in H. inv H. split; [exact H0|]. split; [left; exact X1|].
+      split; [|split].
+      * intros t Ht. destruct (Hta t Ht) as [H1|H1]; [apply (k_dates s K b); auto|lia].
+      * intros t Ht. destruct (Htr t Ht) as [H1|H1]; [apply (k_dates s K b); auto|lia].
+      * destruct X3; auto.
+    + rewrite upd_neq in H |- * by exact Hne. destruct (k_start s K b0 ts H) as [T0 [T1 [T2 [T3 T4]]]].
+      repeat split; try assumption. destruct T4 as [T|[T|[p [P1 P2]]]]; auto. right; right. exists p. split; [exact P1|].
+      rewrite Htf'. exact P2.
+  - intros p t H. rewrite Htf' in H. pose proof (k_tf s K p t H) as Hf. rewrite Ha. rewrite upd_neq; [exact Hf|].
+    intros ->. apply startable_states in Hst. destruct Hst; congruence.
+Qed.
+
+Lemma k_put_started : forall s b x, kinv s -> startable (acts s b) = true ->
+  a_gpreds x = a_gpreds (acts s b) -> a_deps x = a_deps (acts s b) -> a_tfinish x = a_tfinish (acts s b) ->
+  a_tstart x = a_tstart (acts s b) ->
+  (forall t, a_tassign x = Some t -> a_tassign (acts s b) = Some t \/ t = now s) ->
+  (forall t, a_treq x = Some t -> a_treq (acts s b) = Some t \/ t = now s) ->
+  (a_tassign x = Some (now s) \/ a_treq x = Some (now s)) ->
+  kinv (put_started s b (start_act (now s) x)).
+Proof.
+  intros s b x K Hst Hgp Hdp Htf Hts Hta Htr Hone.
+  eapply (k_upd s _ b (start_act (now s) x) K); try reflexivity; try assumption;
+    destruct (start_act_cases (now s) x) as [[E _]|[E _]]; rewrite E; cbn; try assumption.
+  - left; exact Hts.
+  - right. auto.
+Qed.
+
+Lemma k_edge : forall s a b sa db gb, inv s -> kinv s -> a <> b -> startable (acts s b) = true ->
+  (forall p, In p db -> In p gb) ->
+  kinv (with_act (with_act s a (set_succs (acts s a) sa)) b (set_gpreds (set_deps (acts s b) db) gb)).
+Proof.
+  intros s a b sa db gb I K Hab Hst Hsub. set (s' := with_act _ _ _).
+  assert (Hb' : acts s' b = set_gpreds (set_deps (acts s b) db) gb) by (unfold s', with_act; cbn [acts]; rewrite upd_eq; reflexivity).
+  assert (Ha' : acts s' a = set_succs (acts s a) sa) by (unfold s', with_act; cbn [acts]; rewrite upd_neq by exact Hab; rewrite upd_eq; reflexivity).
+  assert (Ho : forall i, i <> a -> i <> b -> acts s' i = acts s i) by (intros i H1 H2; unfold s', with_act; cbn [acts]; rewrite !upd_neq by assumption; reflexivity).
+  assert (Hsame : forall i, a_state (acts s' i) = a_state (acts s i) /\ a_tfinish (acts s' i) = a_tfinish (acts s i) /\
+            a_tstart (acts s' i) = a_tstart (acts s i) /\ a_tassign (acts s' i) = a_tassign (acts s i) /\ a_treq (acts s' i) = a_treq (acts s i)).
+  { intros i. destruct (Nat.eq_dec i b) as [->|Hib]; [rewrite Hb'; cbn; auto 6|].
+    destruct (Nat.eq_dec i a) as [->|Hia]; [rewrite Ha'; cbn; auto 6|rewrite Ho by assumption; auto 6]. }
+  assert (Hnone : a_tstart (acts s b) = None).
+  { destruct (a_tstart (acts s b)) as [ts|] eqn:E; [|reflexivity]. destruct (k_start s K b ts E) as [_ [S _]].
+    exfalso. eapply startable_not_sod; eauto. }
+  constructor.
+  - exact (k_now s K).
+  - intros b0 t H. destruct (Hsame b0) as [_ [_ [_ [E1 E2]]]]. rewrite E1, E2 in H. apply (k_dates s K b0); exact H.
+  - intros a0 b0 H. destruct (Nat.eq_dec b0 b) as [->|Hne].
+    + rewrite Hb' in H |- *. cbn in H |- *. apply Hsub; exact H.
+    + destruct (Nat.eq_dec b0 a) as [->|Hna]; [rewrite Ha' in H |- *|rewrite Ho in H |- * by assumption]; cbn in H |- *; apply (k_dg s K); exact H.
+  - intros b0 ts H. destruct (Hsame b0) as [E0 [_ [E1 [E2 E3]]]]. rewrite E1 in H.
+    destruct (Nat.eq_dec b0 b) as [->|Hne]; [rewrite Hnone in H; discriminate|].
+    destruct (k_start s K b0 ts H) as [T0 [T1 [T2 [T3 T4]]]]. unfold trigger_ok, started_or_done. rewrite E0, E2, E3.
+    repeat split; try assumption. destruct T4 as [T|[T|[p [P1 P2]]]]; auto. right; right. exists p.
+    destruct (Hsame p) as [_ [F _]]. rewrite F. split; [|exact P2].
+    destruct (Nat.eq_dec b0 a) as [->|Hna]; [rewrite Ha'|rewrite Ho by assumption]; exact P1.
+  - intros p t H. destruct (Hsame p) as [E0 [E1 _]]. rewrite E1 in H. rewrite E0. apply (k_tf s K p t); exact H.
+Qed.
+
+Lemma k_set_now : forall s t, kinv s -> now s <= t -> kinv (set_now s t).
+Proof.
+  intros s t K Ht. constructor; cbn [set_now acts now].
+  - pose proof (k_now s K). lia.
+  - intros b x H. pose proof (k_dates s K b x H). lia.
+  - apply (k_dg s K).
+  - intros b ts H. exact (k_start s K b ts H).
+  - apply (k_tf s K).
+Qed.
+
+Lemma k_complete : forall s a, inv s -> kinv s -> a_state (acts s a) = STARTED -> kinv (complete s a).
+Proof.
+  intros s a I K Hsa.
+  assert (Hda : a_deps (acts s a) = []) by (apply (i_sd s I); unfold startable; rewrite Hsa; reflexivity).
+  assert (Hself : ~ In a (a_succs (acts s a))).
+  { intros H. apply (i_E2 s I) in H. rewrite Hda in H. contradiction. }
+  destruct (complete_facts s a (i_nd s I a) Hself) as [C1 [C2 [C3 [C4 C5]]]].
+  set (s' := complete s a) in *.
+  assert (Hsuc : forall i, In i (a_succs (acts s a)) -> i <> a /\ startable (acts s i) = true /\ In a (a_deps (acts s i))).
+  { intros i Hi. pose proof (i_E2 s I a i Hi) as H. split; [intros ->; contradiction|]. split; [eapply deps_dg; eauto|exact H]. }
+  assert (Hcls : forall i, i = a \/ (i <> a /\ In i (a_succs (acts s a))) \/ (i <> a /\ ~ In i (a_succs (acts s a)))).
+  { intros i. destruct (Nat.eq_dec i a); [left; assumption|right].
+    destruct (in_dec Nat.eq_dec i (a_succs (acts s a))); [left|right]; auto. }
+  assert (Hsame : forall i, a_gpreds (acts s' i) = a_gpreds (acts s i) /\ a_tassign (acts s' i) = a_tassign (acts s i) /\
+                            a_treq (acts s' i) = a_treq (acts s i) /\ (i <> a -> a_tfinish (acts s' i) = a_tfinish (acts s i))).
+  { intros i. destruct (Hcls i) as [->|[[H1 H2]|[H1 H2]]].
+    - rewrite C3. cbn. repeat split; auto. intros H; contradiction.
+    - rewrite C4 by assumption. destruct (rel_act_cases a (now s) (acts s i)) as [[_ E]|[[_ [_ E]]|[_ [_ E]]]]; rewrite E; cbn; auto.
+    - rewrite C5 by assumption. auto. }
+  assert (Hkeep : forall p t, a_tfinish (acts s p) = Some t -> a_tfinish (acts s' p) = Some t).
+  { intros p t H. destruct (Hsame p) as [_ [_ [_ E]]]. rewrite E; [exact H|]. intros ->. apply (k_tf s K) in H. congruence. }
+  constructor.
+  - rewrite C1. exact (k_now s K).
+  - intros b t H. rewrite C1. destruct (Hsame b) as [_ [E1 [E2 _]]]. rewrite E1, E2 in H. apply (k_dates s K b); exact H.
+  - intros a0 b H. destruct (Hsame b) as [E _]. rewrite E. apply (k_dg s K).
+    destruct (Hcls b) as [->|[[H1 H2]|[H1 H2]]].
+    + rewrite C3 in H. cbn in H. exact H.
+    + rewrite C4 in H by assumption.
+      destruct (rel_act_cases a (now s) (acts s b)) as [[_ E0]|[[_ [_ E0]]|[_ [_ E0]]]]; rewrite E0 in H; cbn in H; try contradiction.
+      apply set_del_In in H. tauto.
+    + rewrite C5 in H by assumption. exact H.
+  - intros b ts H. unfold trigger_ok. destruct (Hsame b) as [E1 [E2 [E3 _]]]. rewrite E1, E2, E3.
+    assert (Hold : a_tstart (acts s b) = Some ts -> (a_state (acts s' b) = a_state (acts s b) \/ b = a) ->
+                   0 <= ts /\ started_or_done (acts s' b) /\ (forall t, a_tassign (acts s b) = Some t -> t <= ts) /\
+                   (forall t, a_treq (acts s b) = Some t -> t <= ts) /\
+                   (a_tassign (acts s b) = Some ts \/ a_treq (acts s b) = Some ts \/
+                    exists p, In p (a_gpreds (acts s b)) /\ a_tfinish (acts s' p) = Some ts)).
+    { intros Hts Hstate. destruct (k_start s K b ts Hts) as [T0 [T1 [T2 [T3 T4]]]]. split; [exact T0|]. split.
+      - destruct Hstate as [Hs| ->]; [unfold started_or_done; rewrite Hs; exact T1|right; rewrite C3; reflexivity].
+      - repeat split; try assumption. destruct T4 as [T|[T|[p [P1 P2]]]]; auto. right; right. exists p. split; [exact P1|apply Hkeep; exact P2]. }
+    destruct (Hcls b) as [->|[[H1 H2]|[H1 H2]]].
+    + rewrite C3 in H. cbn in H. apply Hold; auto.
+    + destruct (Hsuc b H2) as [_ [Hst Hin]]. rewrite C4 in H by assumption.
+      assert (Hnone : a_tstart (acts s b) = None).
+      { destruct (a_tstart (acts s b)) as [t0|] eqn:E; [|reflexivity]. destruct (k_start s K b t0 E) as [_ [S _]].
+        exfalso. eapply startable_not_sod; eauto. }
+      destruct (rel_act_cases a (now s) (acts s b)) as [[_ E]|[[_ [_ E]]|[_ [_ E]]]]; rewrite E in H; cbn in H; try congruence.
+      inv H. pose proof (k_now s K). split; [assumption|]. split.
+      * left. rewrite C4 by assumption. rewrite E. reflexivity.
+      * split; [intros t Ht; apply (k_dates s K b); auto|]. split; [intros t Ht; apply (k_dates s K b); auto|].
+        right; right. exists a. split; [apply (k_dg s K); exact Hin|rewrite C3; reflexivity].
+    + rewrite C5 in H by assumption. apply Hold; [exact H|]. left. rewrite C5 by assumption. reflexivity.
+  - intros p t H. destruct (Hcls p) as [->|[[H1 H2]|[H1 H2]]].
+    + rewrite C3. reflexivity.
+    + destruct (Hsuc p H2) as [_ [Hst _]]. destruct (Hsame p) as [_ [_ [_ E]]]. rewrite E in H by assumption.
+      apply (k_tf s K) in H. apply startable_states in Hst. destruct Hst; congruence.
+    + rewrite C5 in H |- * by assumption. apply (k_tf s K p t); exact H.
+Qed.
+
+Lemma batch_fold_kinv : forall l s, inv s -> kinv s -> NoDup l -> (forall a, In a l -> a_state (acts s a) = STARTED) ->
+  kinv (fold_left complete l s).
+Proof.
+  induction l as [|a r IH]; intros s I K Hnd Hst; cbn [fold_left]; [exact K|].
+  inv Hnd. assert (Ha : a_state (acts s a) = STARTED) by (apply Hst; left; reflexivity).
+  apply IH.
+  - apply complete_inv; assumption.
+  - apply k_complete; assumption.
+  - exact H2.
+  - intros b Hb. apply complete_keeps_started; auto; [intros ->; contradiction|apply Hst; right; exact Hb].
+Qed.
+
+Lemma k_drain : forall fuel lim s, inv s -> kinv s -> kinv (drain fuel lim s).
+Proof.
+  induction fuel as [|f IH]; intros lim s I K; cbn [drain]; [exact K|].
+  destruct (next_ev (acts s) (seq 0 (nacts s))) as [[a d]|] eqn:En; [|exact K].
+  destruct (next_ev_spec _ _ _ _ En) as [_ Hf]. apply fin_date_started in Hf.
+  assert (I1 : inv (set_now s (Z.max (now s) d))) by (apply set_now_inv; [exact I|lia]).
+  assert (K1 : kinv (set_now s (Z.max (now s) d))) by (apply k_set_now; [exact K|lia]).
+  assert (Step : kinv (drain f lim (complete (set_now s (Z.max (now s) d)) a))).
+  { apply IH; [apply complete_inv; assumption|apply k_complete; assumption]. }
+  destruct lim as [t|]; [|exact Step].
+  destruct (d <? t); [exact Step|]. destruct (d =? t); [|exact K].
+  unfold batch. destruct (due_list s t) as [D1 D2].
+  apply batch_fold_kinv; [apply set_now_inv; [exact I|lia]|apply k_set_now; [exact K|lia]|exact D1|exact D2].
+Qed.
+
+Lemma k_step : forall s o s', inv s -> kinv s -> step s o = Ok s' -> kinv s'.
+Proof.
+  intros s0 o s' I0 K0 H. pose proof (log_op_inv s0 o I0) as I.
+  assert (K : kinv (log_op s0 o)) by (destruct K0; constructor; cbn; assumption).
+  unfold step in H. set (s := log_op s0 o) in *.
+  destruct o as [k dur|a b|a b|b|b|t|]; cbn zeta in H.
+  - destruct (_ || _); [discriminate|]. injection H as <-.
+    assert (Fr : fresh (acts s (nacts s))) by (apply (i_fresh s I); lia).
+    assert (Hlt : forall b p, In p (a_gpreds (acts s b)) -> p <> nacts s) by (intros b p Hp; pose proof (i_bnd s I b p Hp); lia).
+    constructor; cbn [acts now].
+    + exact (k_now s K).
+    + intros b t H. destruct (Nat.eq_dec b (nacts s)) as [->|Hne]; [rewrite upd_eq in H; cbn in H; destruct H; discriminate|].
+      rewrite upd_neq in H by exact Hne. apply (k_dates s K b); exact H.
+    + intros a b H. destruct (Nat.eq_dec b (nacts s)) as [->|Hne]; [rewrite upd_eq in H; contradiction|].
+      rewrite upd_neq in H |- * by exact Hne. apply (k_dg s K); exact H.
+    + intros b ts H. destruct (Nat.eq_dec b (nacts s)) as [->|Hne]; [rewrite upd_eq in H; discriminate|].
+      rewrite upd_neq in H by exact Hne. destruct (k_start s K b ts H) as [T0 [T1 [T2 [T3 T4]]]].
+      unfold trigger_ok; cbn [acts]. rewrite upd_neq by exact Hne. repeat split; try assumption.
+      destruct T4 as [T|[T|[p [P1 P2]]]]; auto. right; right. exists p. split; [exact P1|].
+      rewrite upd_neq by (eapply Hlt; eauto). exact P2.
+    + intros p t H. destruct (Nat.eq_dec p (nacts s)) as [->|Hne]; [rewrite upd_eq in H; discriminate|].
+      rewrite upd_neq in H |- * by exact Hne. apply (k_tf s K p t); exact H.
+  - destruct ((a <? nacts s)%nat && (b <? nacts s)%nat) eqn:Eb; cbn [negb] in H; [|discriminate].
+    destruct (Nat.eqb_spec a b) as [|Hab]; [discriminate|].
+    destruct (memb b (a_succs (acts s a))) eqn:Em; [discriminate|].
+    destruct (startable (acts s b)) eqn:Es; cbn [negb] in H; [|discriminate].
+    injection H as <-. rewrite !(upd_neq (acts s0) a _ b) by auto. apply (k_edge s); try assumption.
+    intros p Hp. apply set_add_In in Hp. apply set_add_In. destruct Hp as [->|Hp]; [left; reflexivity|right; apply (k_dg s K); exact Hp].
+  - destruct ((a <? nacts s)%nat && (b <? nacts s)%nat) eqn:Eb; cbn [negb] in H; [|discriminate].
+    destruct (Nat.eqb_spec a b) as [|Hab]; [discriminate|].
+    destruct (memb b (a_succs (acts s a))) eqn:Em; cbn [negb] in H; [|discriminate]. apply memb_In in Em.
+    injection H as <-. rewrite !(upd_neq (acts s0) a _ b) by auto. apply (k_edge s); try assumption.
+    + eapply deps_dg; [exact I|]. apply (i_E2 s I a b); exact Em.
+    + intros p Hp. apply set_del_In in Hp. apply set_del_In. split; [tauto|apply (k_dg s K); tauto].
+  - destruct (b <? nacts s)%nat eqn:Eb; cbn [negb] in H; [|discriminate].
+    destruct (startable (acts s b)) eqn:Es; cbn [negb] in H; [|discriminate].
+    destruct (match a_kind (acts s b) with KComm => a_assigned (acts s b) | _ => false end); [discriminate|].
+    cbn [a_kind set_assigned] in H.
+    assert (P : kinv (put_started s b (start_act (now s) (set_assigned (acts s b) (now s))))).
+    { apply (k_put_started s b _ K Es); cbn; auto. intros t Ht. inv Ht. auto. }
+    assert (W : kinv (with_act s b (set_assigned (acts s b) (now s)))).
+    { eapply (k_upd s _ b _ K); try reflexivity; try assumption; cbn; auto. intros t Ht. inv Ht. auto. }
+    destruct (a_kind (acts s b)); [destruct (astate_eqb _ STARTING)| |destruct (astate_eqb _ STARTING)]; injection H as <-; assumption.
+  - destruct (b <? nacts s)%nat eqn:Eb; cbn [negb] in H; [|discriminate].
+    destruct (startable (acts s b)) eqn:Es; cbn [negb] in H; [|discriminate].
+    injection H as <-. apply (k_put_started s b _ K Es); cbn; auto. intros t Ht. inv Ht. auto.
+  - destruct (t <? now s) eqn:Et; [discriminate|]. injection H as <-.
+    apply (k_set_now (drain (nacts s) (Some t) s)); [apply k_drain; assumption|apply drain_le; lia].
+  - injection H as <-. apply k_drain; assumption.
+Qed.
+
+Lemma max_list_ub : forall l m, 0 <= m -> (forall x, In x l -> x <= m) -> max_list l <= m.
+Proof. induction l as [|y r IH]; cbn; intros m H0 H; [exact H0|]. pose proof (H y (or_introl eq_refl)). assert (max_list r <= m) by (apply IH; auto). unfold max_list in *. lia. Qed.
+Lemma max_list_ge : forall l x, In x l -> x <= max_list l.
+Proof. induction l as [|y r IH]; cbn; intros x H; [contradiction|]. destruct H as [->|H]; [unfold max_list; lia|]. specialize (IH x H). unfold max_list in *. lia. Qed.
+Lemma max_list_nonneg : forall l, 0 <= max_list l.
+Proof. induction l as [|y r IH]; cbn; unfold max_list in *; lia. Qed.
+
+Lemma run_from_kinv : forall ops s s' k, inv s -> kinv s -> run_from s ops = (Ok s', k) -> kinv s'.
+Proof.
+  induction ops as [|o r IH]; intros s s' k I K H; cbn [run_from] in H.
+  - inv H. exact K.
+  - destruct (step s o) as [s1| |] eqn:Es; try (inv H; fail).
+    destruct (step_inv s o s1 I Es) as [I1 _]. pose proof (k_step s o s1 I K Es) as K1.
+    destruct (run_from s1 r) as [x k'] eqn:Er. inv H. eapply IH; eauto.
+Qed.
+
+(** C13, third sentence, for every script (remove_successor included): an activity starts exactly at the latest of the
+    finish dates of its declared predecessors, its (latest) assignment and its (latest) start request. *)
+Theorem start_at_max : forall ops s, run ops = Ok s -> forall b ts, a_tstart (acts s b) = Some ts ->
+  ts = Z.max (Z.max (max_list (map (fun p => odef (a_tfinish (acts s p))) (a_gpreds (acts s b))))
+                    (odef (a_tassign (acts s b)))) (odef (a_treq (acts s b))).
+Proof.
+  intros ops s H b ts Hts. unfold run in H. destruct (run_from init_st ops) as [x k] eqn:E. cbn in H. subst x.
+  destruct (run_from_inv ops init_st s k inv_init E) as [I _].
+  pose proof (run_from_kinv ops init_st s k inv_init kinv_init E) as K.
+  destruct (k_start s K b ts Hts) as [T0 [T1 [T2 [T3 T4]]]].
+  destruct (i_guard s I b T1) as [_ [ts' [G2 [_ G4]]]]. rewrite Hts in G2. inv G2.
+  set (l := map (fun p => odef (a_tfinish (acts s p))) (a_gpreds (acts s b))).
+  assert (Hub : max_list l <= ts').
+  { apply max_list_ub; [exact T0|]. intros x Hx. apply in_map_iff in Hx. destruct Hx as [p [<- Hp]].
+    destruct (G4 p Hp) as [_ [tf [F1 F2]]]. rewrite F1. exact F2. }
+  assert (Ha : odef (a_tassign (acts s b)) <= ts') by (destruct (a_tassign (acts s b)) as [t|] eqn:Et; cbn; [apply T2; reflexivity|exact T0]).
+  assert (Hr : odef (a_treq (acts s b)) <= ts') by (destruct (a_treq (acts s b)) as [t|] eqn:Et; cbn; [apply T3; reflexivity|exact T0]).
+  destruct T4 as [T|[T|[p [P1 P2]]]].
+  - rewrite T in *. cbn in *. lia.
+  - rewrite T in *. cbn in *. lia.
+  - assert (ts' <= max_list l).
+    { apply max_list_ge. apply in_map_iff. exists p. split; [rewrite P2; reflexivity|exact P1]. }
+    lia.
+Qed.
+
+(** * 6. Liveness: in an acyclic workflow where everything is assigned, Engine::run() finishes every activity *)
+Definition good_state (x : act) : Prop :=
+  a_state x = INITED \/ a_state x = STARTING \/ a_state x = STARTED \/ a_state x = FINISHED.
+Record settled (s : st) (rank : nat -> nat) : Prop := {
+  s_asg : forall b, (b < nacts s)%nat -> a_assigned (acts s b) = true;
+  s_ready : forall b, (b < nacts s)%nat -> startable (acts s b) = true -> a_deps (acts s b) <> [];
+  s_deps : forall b p, In p (a_deps (acts s b)) ->
+             (p < nacts s)%nat /\ a_state (acts s p) <> FINISHED /\ (rank p < rank b)%nat /\ In b (a_succs (acts s p));
+  s_states : forall b, good_state (acts s b) }.
+
+Definition is_fin (x : act) : bool := astate_eqb (a_state x) FINISHED.
+Lemma is_fin_true : forall x, is_fin x = true <-> a_state x = FINISHED.
+Proof. intros x; unfold is_fin; destruct (a_state x); cbn; split; intros; try discriminate; reflexivity. Qed.
+Definition nf (s : st) : nat := length (filter (fun i => negb (is_fin (acts s i))) (seq 0 (nacts s))).
+
+Lemma count_flip : forall (f g : nat -> bool) l a, NoDup l -> In a l -> f a = true -> g a = false ->
+  (forall i, i <> a -> g i = f i) -> (length (filter g l) < length (filter f l))%nat.
+Proof.
+  induction l as [|x r IH]; intros a Hnd Hin Hf Hg Hsame; [contradiction|]. inv Hnd. cbn [filter].
+  destruct (Nat.eq_dec x a) as [->|Hne].
+  - rewrite Hf, Hg. cbn [length].
+    assert (E : filter g r = filter f r).
+    { apply filter_ext_in. intros i Hi. apply Hsame. intros ->. contradiction. }
+    rewrite E. lia.
+  - destruct Hin as [->|Hin]; [contradiction|]. rewrite (Hsame x Hne). specialize (IH a H2 Hin Hf Hg Hsame).
+    destruct (f x); cbn [length]; lia.
+Qed.
+
+Lemma next_ev_some : forall f ids c d, In c ids -> fin_date (f c) = Some d -> next_ev f ids <> None.
+Proof.
+  induction ids as [|i r IH]; intros c d Hin Hd; [contradiction|]. cbn [next_ev]. destruct Hin as [->|Hin].
+  - rewrite Hd. destruct (next_ev f r) as [[j e]|]; [destruct (d <=? e)|]; discriminate.
+  - specialize (IH c d Hin Hd). destruct (fin_date (f i)); [|exact IH].
+    destruct (next_ev f r) as [[j e]|]; [destruct (_ <=? _); discriminate|contradiction].
+Qed.
+
+Lemma some_started : forall s rank, inv s -> settled s rank ->
+  forall k b, (rank b <= k)%nat -> (b < nacts s)%nat -> a_state (acts s b) <> FINISHED ->
+  exists c, (c < nacts s)%nat /\ a_state (acts s c) = STARTED.
+Proof.
+  intros s rank I S. induction k as [|k IH]; intros b Hk Hb Hnf.
+  - destruct (s_states s rank S b) as [H|[H|[H|H]]]; [| |exists b; auto|contradiction];
+      (assert (Hst : startable (acts s b) = true) by (unfold startable; rewrite H; reflexivity);
+       pose proof (s_ready s rank S b Hb Hst) as Hd; destruct (a_deps (acts s b)) as [|p r] eqn:Ed; [contradiction|];
+       destruct (s_deps s rank S b p) as [_ [_ [Hr _]]]; [rewrite Ed; left; reflexivity|lia]).
+  - destruct (s_states s rank S b) as [H|[H|[H|H]]]; [| |exists b; auto|contradiction];
+      (assert (Hst : startable (acts s b) = true) by (unfold startable; rewrite H; reflexivity);
+       pose proof (s_ready s rank S b Hb Hst) as Hd; destruct (a_deps (acts s b)) as [|p r] eqn:Ed; [contradiction|];
+       destruct (s_deps s rank S b p) as [Hp [Hpf [Hr _]]]; [rewrite Ed; left; reflexivity|];
+       apply (IH p); [lia|exact Hp|exact Hpf]).
+Qed.
+
+Lemma settled_set_now : forall s rank t, settled s rank -> settled (set_now s t) rank.
+Proof. intros s rank t S. destruct S. constructor; cbn [set_now acts nacts]; assumption. Qed.
+
+Lemma complete_settled : forall s rank a, inv s -> settled s rank -> (a < nacts s)%nat -> a_state (acts s a) = STARTED ->
+  settled (complete s a) rank /\ (nf (complete s a) < nf s)%nat.
+Proof.
+  intros s rank a I S Han Hsa.
+  assert (Hda : a_deps (acts s a) = []) by (apply (i_sd s I); unfold startable; rewrite Hsa; reflexivity).
+  assert (Hself : ~ In a (a_succs (acts s a))).
+  { intros H. apply (i_E2 s I) in H. rewrite Hda in H. contradiction. }
+  destruct (complete_facts s a (i_nd s I a) Hself) as [C1 [C2 [C3 [C4 C5]]]].
+  set (s' := complete s a) in *.
+  assert (Hsuc : forall i, In i (a_succs (acts s a)) -> i <> a /\ startable (acts s i) = true /\ In a (a_deps (acts s i))).
+  { intros i Hi. pose proof (i_E2 s I a i Hi) as H. split; [intros ->; contradiction|]. split; [eapply deps_dg; eauto|exact H]. }
+  assert (Hcls : forall i, i = a \/ (i <> a /\ In i (a_succs (acts s a))) \/ (i <> a /\ ~ In i (a_succs (acts s a)))).
+  { intros i. destruct (Nat.eq_dec i a); [left; assumption|right].
+    destruct (in_dec Nat.eq_dec i (a_succs (acts s a))); [left|right]; auto. }
+  (* what happens to an activity other than a *)
+  assert (Hoth : forall i, i <> a ->
+            a_assigned (acts s' i) = a_assigned (acts s i) /\ a_succs (acts s' i) = a_succs (acts s i) /\
+            (forall p, In p (a_deps (acts s' i)) -> p <> a /\ In p (a_deps (acts s i))) /\
+            (a_state (acts s i) <> FINISHED -> a_state (acts s' i) <> FINISHED) /\
+            (a_state (acts s i) = FINISHED -> a_state (acts s' i) = FINISHED) /\
+            good_state (acts s' i) /\
+            (startable (acts s' i) = true -> (i < nacts s)%nat -> a_deps (acts s' i) <> [])).
+  { intros i Hia. destruct (Hcls i) as [->|[[H1 H2]|[H1 H2]]]; [contradiction| |].
+    - destruct (Hsuc i H2) as [_ [Hst Hin]]. rewrite C4 by assumption. pose proof Hst as Hst2. apply startable_states in Hst2.
+      destruct (rel_act_cases a (now s) (acts s i)) as [[E0 E]|[[E0 [E1 E]]|[E0 [E1 E]]]]; rewrite E; cbn;
+        (split; [reflexivity|]); (split; [reflexivity|]).
+      + split; [intros p Hp; apply set_del_In in Hp; tauto|]. split; [auto|]. split; [auto|]. split; [apply (s_states s rank S)|]. intros _ _. exact E0.
+      + split; [intros p []|]. split; [intros _; discriminate|]. split; [intros Hf; destruct Hst2; congruence|].
+        split; [right; left; reflexivity|]. intros _ Hi. rewrite (s_asg s rank S i Hi) in E1. discriminate.
+      + split; [intros p []|]. split; [intros _; discriminate|]. split; [intros Hf; destruct Hst2; congruence|].
+        split; [right; right; left; reflexivity|]. intros Hs _. discriminate.
+    - rewrite C5 by assumption. split; [reflexivity|]. split; [reflexivity|]. split.
+      + intros p Hp. split; [|exact Hp]. intros ->. destruct (s_deps s rank S i a Hp) as [_ [_ [_ Hin]]]. contradiction.
+      + split; [auto|]. split; [auto|]. split; [apply (s_states s rank S)|]. intros Hs Hi. apply (s_ready s rank S i Hi Hs). }
+  split.
+  - constructor.
+    + intros b Hb. rewrite C2 in Hb. destruct (Nat.eq_dec b a) as [->|Hne].
+      * rewrite C3. cbn. apply (s_asg s rank S a Han).
+      * destruct (Hoth b Hne) as [E _]. rewrite E. apply (s_asg s rank S b Hb).
+    + intros b Hb Hst. rewrite C2 in Hb. destruct (Nat.eq_dec b a) as [->|Hne].
+      * rewrite C3 in Hst. discriminate.
+      * destruct (Hoth b Hne) as [_ [_ [_ [_ [_ [_ H]]]]]]. apply H; assumption.
+    + intros b p Hp. destruct (Nat.eq_dec b a) as [->|Hne].
+      * rewrite C3 in Hp. cbn in Hp. rewrite Hda in Hp. contradiction.
+      * destruct (Hoth b Hne) as [_ [_ [Hd _]]]. destruct (Hd p Hp) as [Hpa Hp0].
+        destruct (s_deps s rank S b p Hp0) as [D1 [D2 [D3 D4]]]. rewrite C2.
+        destruct (Hoth p Hpa) as [_ [Esu [_ [Hnf _]]]]. rewrite Esu. auto.
+    + intros b. destruct (Nat.eq_dec b a) as [->|Hne]; [rewrite C3; right; right; right; reflexivity|apply (Hoth b Hne)].
+  - unfold nf. rewrite C2. apply (count_flip _ _ (seq 0 (nacts s)) a).
+    + apply seq_NoDup.
+    + apply in_seq. lia.
+    + unfold is_fin. rewrite Hsa. reflexivity.
+    + rewrite C3. reflexivity.
+    + intros i Hne. f_equal. destruct (Hoth i Hne) as [_ [_ [_ [H1 [H2 _]]]]].
+      destruct (is_fin (acts s i)) eqn:E.
+      * apply is_fin_true. apply H2. apply is_fin_true. exact E.
+      * destruct (is_fin (acts s' i)) eqn:E'; [|reflexivity]. apply is_fin_true in E'. exfalso. apply H1; [|exact E'].
+        intros Hf. apply is_fin_true in Hf. congruence.
+Qed.
+
+Lemma drain_all_finish : forall fuel s rank, inv s -> settled s rank -> (nf s <= fuel)%nat ->
+  forall b, (b < nacts s)%nat -> a_state (acts (drain fuel None s) b) = FINISHED.
+Proof.
+  induction fuel as [|f IH]; intros s rank I S Hnf b Hb.
+  - cbn [drain]. destruct (is_fin (acts s b)) eqn:E; [apply is_fin_true; exact E|]. exfalso.
+    assert (Hin : In b (filter (fun i => negb (is_fin (acts s i))) (seq 0 (nacts s)))).
+    { apply filter_In. split; [apply in_seq; lia|rewrite E; reflexivity]. }
+    unfold nf in Hnf. destruct (filter _ _); [contradiction|cbn in Hnf; lia].
+  - cbn [drain]. destruct (next_ev (acts s) (seq 0 (nacts s))) as [[a d]|] eqn:En.
+    + destruct (next_ev_spec _ _ _ _ En) as [Hin Hf]. apply fin_date_started in Hf. apply in_seq in Hin.
+      set (s1 := set_now s (Z.max (now s) d)).
+      assert (I1 : inv s1) by (apply set_now_inv; [exact I|lia]).
+      assert (S1 : settled s1 rank) by (apply settled_set_now; exact S).
+      destruct (complete_settled s1 rank a I1 S1) as [S2 N2]; [cbn; lia|exact Hf|].
+      destruct (complete_now s1 a) as [_ Cn].
+      apply (IH (complete s1 a) rank); [apply complete_inv; assumption|exact S2| |rewrite Cn; exact Hb].
+      change (nf s1) with (nf s) in N2. lia.
+    + destruct (a_state (acts s b)) eqn:Eb; try reflexivity; exfalso;
+        (destruct (some_started s rank I S (rank b) b) as [c [Hc Hcs]]; [lia|exact Hb|congruence|]);
+        (destruct (i_guard s I c (or_introl Hcs)) as [_ [ts [Hts _]]]);
+        (apply (next_ev_some (acts s) (seq 0 (nacts s)) c (ts + a_dur (acts s c))); [apply in_seq; lia|unfold fin_date; rewrite Hcs, Hts; reflexivity|exact En]).
+Qed.
+
+Lemma nf_le : forall s, (nf s <= nacts s)%nat.
+Proof.
+  intros s. unfold nf. rewrite <- (seq_length (nacts s) 0) at 2. generalize (seq 0 (nacts s)). intros l.
+  induction l as [|x r IH]; cbn; [lia|]. destruct (negb _); cbn; lia.
+Qed.
+
+(** C13, second sentence: from any state a script reaches in which every activity is assigned, every activity that is not
+    started still waits for some dependency, dependencies point to unfinished activities that know their successor, and
+    the dependency relation is acyclic (it decreases some rank), Engine::run() finishes every activity. *)
+Theorem acyclic_all_finish : forall ops s rank, run ops = Ok s -> settled s rank ->
+  forall s', step s Run = Ok s' -> forall b, (b < nacts s')%nat -> a_state (acts s' b) = FINISHED.
+Proof.
+  intros ops s rank H S s' Hs b Hb. unfold run in H. destruct (run_from init_st ops) as [x k] eqn:E. cbn in H. subst x.
+  destruct (run_from_inv ops init_st s k inv_init E) as [I _].
+  cbn in Hs. injection Hs as <-.
+  pose proof (log_op_inv s Run I) as I'.
+  assert (S' : settled (log_op s Run) rank) by (destruct S; constructor; cbn; assumption).
+  destruct (drain_inv (nacts s) None (log_op s Run) I') as [_ [_ Hn]]. cbn [log_op nacts] in Hn.
+  change (nacts (log_op s Run)) with (nacts s) in Hb. rewrite Hn in Hb.
+  apply (drain_all_finish (nacts s) (log_op s Run) rank I' S'); [apply (nf_le (log_op s Run))|exact Hb].
+Qed.
